@@ -467,6 +467,8 @@ where
 
                 // transition to same or different state?
                 if curr_state != next_state {
+                    #[cfg(feature = "verif")]
+                    crate::verif::log(crate::verif::LOG_CHANGE, mi as u64, next_state as u64);
                     self.runtime[mi].current_state = next_state;
                     self.runtime[mi].state_limit = if let Some(action) =
                         self.machines.as_ref()[mi].states[next_state].action
